@@ -1,5 +1,5 @@
 (* Proofs about model/Checksum.v (C30). *)
-From Coq Require Import ZifyBool.
+From Coq Require Import ZifyBool String.
 From KS Require Import lib.Base lib.Strings model.Envelope model.Checksum.
 Open Scope Z_scope.
 
@@ -114,6 +114,8 @@ End Readers.
 Lemma firstn_len_eq {A} (l : list A) (n : nat) : zlen (firstn n l) = Z.min (Z.of_nat n) (zlen l).
 Proof. unfold zlen. rewrite firstn_length. lia. Qed.
 
+Opaque trim_space norm to_lower codes bytes_eqb forallb.
+
 Section Download.
   Variable sha256hex : bytes -> bytes.
   Variable presign_ok : bool.
@@ -140,6 +142,17 @@ Section Download.
     split; [reflexivity|]. split; [exact H4|]. split; [exact Hd|exact H4].
   Qed.
 
+  Ltac split_ifs H :=
+    repeat match type of H with
+           | (if ?c then _ else _) = _ => let E := fresh "E" in destruct c eqn:E; try discriminate H
+           end.
+
+  Ltac abstract_mode q :=
+    set (mode := if bytes_eqb (norm (q_mode q)) [] then codes "stream"%string else norm (q_mode q)) in *;
+    set (pr := bytes_eqb mode (codes "presign"%string)) in *;
+    set (st := bytes_eqb mode (codes "stream"%string)) in *;
+    clearbody pr st; clear mode.
+
   Lemma download_sound cfg q body hdr :
     download sha256hex presign_ok get cfg q = DStream body hdr ->
     get (trim_space (q_key q)) = GBody body false /\
@@ -150,22 +163,20 @@ Section Download.
     trim_space (q_bucket q) = c_bucket cfg /\
     (0 < c_max_blob cfg -> zlen body <= c_max_blob cfg).
   Proof.
-    unfold download. cbv zeta. intros H.
-    repeat match type of H with
-           | (if ?c then _ else _) = _ => let E := fresh "E" in destruct c eqn:E; try discriminate H
-           end.
-    apply stream_sound in H; [|lia].
-    destruct H as (Hg & Hs & Hl & Hh).
-    repeat split; auto.
-    - destruct (q_post q); [reflexivity|discriminate].
-    - destruct (q_auth q); [reflexivity|discriminate].
-    - destruct (q_integrity q); [reflexivity|discriminate].
-    - apply bytes_eqb_eq. destruct (bytes_eqb (trim_space (q_bucket q)) (c_bucket cfg)); [reflexivity|discriminate].
-    - intros Hmax.
-      assert (bytes_eqb (if bytes_eqb (norm (q_mode q)) [] then codes "stream" else norm (q_mode q)) (codes "stream") = true) as Hst.
-      { destruct (bytes_eqb (if bytes_eqb (norm (q_mode q)) [] then codes "stream" else norm (q_mode q)) (codes "stream")) eqn:Est; [reflexivity|].
-        destruct (bytes_eqb (if bytes_eqb (norm (q_mode q)) [] then codes "stream" else norm (q_mode q)) (codes "presign")); discriminate. }
-      rewrite Hst in *. cbn [andb] in *. lia.
+    unfold download. cbv zeta. intros H. abstract_mode q.
+    Opaque stream_download.
+    destruct pr, st; cbn [negb andb orb] in H; split_ifs H.
+    Transparent stream_download.
+    all: assert (0 < q_size q) as Hpos by (clear H; lia).
+    all: apply stream_sound in H; [|exact Hpos].
+    all: destruct H as (Hg & Hs & Hl & Hh).
+    all: assert (0 < c_max_blob cfg -> q_size q <= c_max_blob cfg) as Hmax by (clear Hg Hs Hh; lia).
+    all: repeat split; auto.
+    all: try (destruct (q_post q); [reflexivity|discriminate]).
+    all: try (destruct (q_auth q); [reflexivity|discriminate]).
+    all: try (destruct (q_integrity q); [reflexivity|discriminate]).
+    all: try (apply bytes_eqb_eq; destruct (bytes_eqb (trim_space (q_bucket q)) (c_bucket cfg)); [reflexivity|discriminate]).
+    all: intros Hm; rewrite Hl; auto.
   Qed.
 
   (* no object bytes are sent in any other outcome: by the type of [dlresp] only
@@ -173,15 +184,12 @@ Section Download.
   Lemma presign_echo cfg q sha size :
     download sha256hex presign_ok get cfg q = DPresign sha size -> sha = norm (q_sha q) /\ size = q_size q.
   Proof.
-    unfold download. cbv zeta. intros H.
-    repeat match type of H with
-           | (if ?c then _ else _) = _ => let E := fresh "E" in destruct c eqn:E; try discriminate H
-           end.
-    - now inversion H.
-    - unfold stream_download in H. destruct (get (trim_space (q_key q))); [discriminate|].
-      cbv zeta in H.
-      repeat match type of H with
-             | (if ?c then _ else _) = _ => let E := fresh "E" in destruct c eqn:E; try discriminate H
-             end.
+    unfold download. cbv zeta. intros H. abstract_mode q.
+    Opaque stream_download.
+    destruct pr, st; cbn [negb andb orb] in H; split_ifs H.
+    Transparent stream_download.
+    all: try (now inversion H).
+    all: unfold stream_download in H; destruct (get (trim_space (q_key q))); [discriminate|];
+      cbv zeta in H; split_ifs H.
   Qed.
 End Download.
